@@ -7,14 +7,25 @@ backpressured emit, between items, before the first cycle ran), consumer complet
 """
 import io
 
-from ..sched import Scenario, Violation
+from ..sched import Scenario, Violation, Injected
+from ..threads import ThreadedMixin
 from .. import spar
 
 MOD = __name__
 POLL = 1.0
 
 
-class Lifecycle(Scenario):
+class _Ctl:
+    """what a control thread 'emits' are lifecycle calls on the source"""
+
+    def __init__(self, scen):
+        self.scen = scen
+
+    def emit(self, what):
+        (self.scen._start if what == "start" else self.scen._stop)()
+
+
+class Lifecycle(ThreadedMixin, Scenario):
     close_intervals = 5.0
     # start()/stop() are plain method calls made by the program: several of them in one loop
     # turn (start(); stop(); start()) are ordinary code, not a scheduling deviation
@@ -33,12 +44,23 @@ class Lifecycle(Scenario):
         from streamz import Stream
         p = self.params
         kind = p["source"]
+        self.opts = opts = tuple(p.get("opts", ()))
+        self.crashed_at = None
+        self.emitters = []
+        if "thread" in opts:
+            self.setup_threads()
         if kind == "from_periodic":
             self.counter = 0
 
             def cb():
                 self.counter += 1
                 self.log.append(("poll", "src", self.loop.time(), self.counter, self.ref_started))
+                if "pollfail" in opts and self.counter == 2 and self.crashed_at is None:
+                    # the polled callable fails once: that polling loop ends, a later stop() + start() begins a new one
+                    self.crashed_at = self.loop.time()
+                    self.log.append(("crash", "src", self.loop.time(), self.counter))
+                    self.counter -= 1
+                    raise Injected("poll")
                 return self.counter
             self.source = Stream.from_periodic(cb, poll_interval=POLL, loop=self.ioloop, asynchronous=True, start=bool(p.get("autostart")))
         elif kind == "from_iterable":
@@ -63,7 +85,22 @@ class Lifecycle(Scenario):
             self.source = Stream.from_textfile(F(), poll_interval=POLL, loop=self.ioloop, asynchronous=True)
         else:
             raise KeyError(kind)
-        self.source.sink(self.make_sink_fn(p["kind"], "S"))
+        self.ctl = self.source
+        node = self.source
+        if "two" in opts:
+            # a second source behind the same node: start() / stop() are called on the node and reach both
+            def gen2():
+                for i in range(p["n"]):
+                    self.log.append(("poll2", "src2", self.loop.time(), 100 + i, self.ref_started))
+                    yield 100 + i
+            self.source2 = Stream.from_iterable(gen2(), loop=self.ioloop, asynchronous=True)
+            node = self.source.union(self.source2)
+            self.ctl = node
+        node.sink(self.make_sink_fn(p["kind"], "S"))
+        if "fan" in opts:
+            node.sink(self.make_sink_fn("future", "T"))
+        if "thread" in opts:
+            self.add_emitter("t", _Ctl(self), ["start", "stop", "start"][:p["calls"]])
         if p.get("autostart"):
             # started from the constructor (start=True): the first cycle is already scheduled
             self.log.append(("start", "src", self.loop.time(), False))
@@ -72,21 +109,42 @@ class Lifecycle(Scenario):
             self.clock_marks(p["marks"])
 
     def extra_events(self):
+        if "thread" in self.opts:
+            return self.thread_events()
         if self.calls >= self.params["calls"] or self.closing:
             return []
         return [("start", self._start), ("stop", self._stop)]
+
+    def closing_events(self):
+        if "thread" in self.opts:
+            ev = self.thread_events()
+            return ev[0] if ev else None
+        return super().closing_events()
+
+    def finish(self):
+        if "thread" in self.opts:
+            self.teardown_threads()
+
+    def on_emit_done(self, *a):
+        pass
+
+    def on_emit_raised(self, emitter, i, x, e):
+        self.violations.append(Violation("lifecycle-call-raised", self.site(), type(e).__name__, str(e)[:200]))
+
+    def expected_background(self, err):
+        return ("pollfail" in self.opts and "Injected" in (err[1] + err[2])) or super().expected_background(err)
 
     def _start(self):
         self.calls += 1
         self.log.append(("start", "src", self.loop.time(), self.ref_started))
         self.ref_started = True
-        self.source.start()
+        self.ctl.start()
 
     def _stop(self):
         self.calls += 1
         self.log.append(("stop", "src", self.loop.time(), self.ref_started))
         self.ref_started = False
-        self.source.stop()
+        self.ctl.stop()
 
     def closing_hook(self):
         # stop an endless poller shortly before the end so that the run quiesces and the
@@ -103,7 +161,14 @@ class Lifecycle(Scenario):
         kind = self.params["source"]
         log = self.log
         polls = [e for e in log if e[0] == "poll"]
-        ins = [e for e in log if e[0] == "in"]
+        ins = [e for e in log if e[0] == "in" and e[1] == "S" and not (isinstance(e[3], int) and e[3] >= 100)]
+        for e in log:
+            if e[0] == "poll2" and not e[4]:
+                return Violation("cycle-after-stop", kind, "second-source", dict(log=[(x[0], x[2]) + tuple(x[3:4]) for x in log][-16:]))
+        if final and self.ref_started and "two" in self.opts:
+            got2 = [e[3] for e in log if e[0] == "in" and e[1] == "S" and isinstance(e[3], int) and e[3] >= 100]
+            if got2 != [100 + i for i in range(self.params["n"])]:
+                return Violation("not-all-items", kind, "second-source", dict(got=got2))
         info = dict(log=[(e[0], e[2]) + tuple(e[3:4]) for e in log][-16:])
         # a cycle never *begins* while the source is stopped (per the reference flag)
         if kind == "from_periodic":
@@ -112,7 +177,7 @@ class Lifecycle(Scenario):
                     return Violation("cycle-after-stop", kind, "", info)
             ts = [e[2] for e in polls]
             for a, b in zip(ts, ts[1:]):
-                if b - a < POLL:
+                if b - a < POLL and a != self.crashed_at:      # (a loop that died on a failing poll is not active any more)
                     return Violation("double-loop", kind, "two-cycles-within-one-interval", info)
             vals = [e[3] for e in ins]
             if vals != list(range(1, len(vals) + 1)):
@@ -127,9 +192,12 @@ class Lifecycle(Scenario):
                 elif e[0] == "poll" and opened > 0:
                     return Violation("took-next-before-downstream", kind, "", info)
             if final and self.ref_started:
-                last_start = max(e[2] for e in log if e[0] == "start")
-                if not any(e[2] >= last_start for e in polls):
-                    return Violation("no-cycle-after-start", kind, "", info)
+                # the start that counts: the last one made while the source was stopped
+                eff = [i for i, e in enumerate(log) if e[0] == "start" and not e[3]]
+                crash = [i for i, e in enumerate(log) if e[0] == "crash"]
+                if eff and not (crash and crash[-1] > eff[-1]):
+                    if not any(i > eff[-1] for i, e in enumerate(log) if e[0] == "poll"):
+                        return Violation("no-cycle-after-start", kind, "", info)
         elif kind == "from_iterable":
             n = self.params["n"]
             taken = [e[3] for e in polls]
@@ -146,12 +214,20 @@ class Lifecycle(Scenario):
                 return Violation("double-loop", kind, "items-out-of-order", info)
             opened = 0
             for e in log:
+                if e[0] in ("in", "out") and isinstance(e[3], int) and e[3] >= 100:
+                    continue          # the other source's item
                 if e[0] == "in":
                     opened += 1
                 elif e[0] == "out":
                     opened -= 1
                 elif e[0] == "poll" and opened > 0:
                     return Violation("took-next-before-downstream", kind, "", info)
+            opened = 0
+            for e in log:
+                if e[0] in ("in", "out") and isinstance(e[3], int) and e[3] >= 100:
+                    opened += 1 if e[0] == "in" else -1
+                elif e[0] == "poll2" and opened > 0:
+                    return Violation("took-next-before-downstream", kind, "second-source", info)
             # an item delivered while the source is stopped: only the one in progress may finish
             stopped_at = None
             for e in log:
@@ -159,7 +235,7 @@ class Lifecycle(Scenario):
                     stopped_at = 0
                 elif e[0] == "start":
                     stopped_at = None
-                elif e[0] == "in" and stopped_at is not None:
+                elif e[0] == "in" and e[1] == "S" and stopped_at is not None and not (isinstance(e[3], int) and e[3] >= 100):
                     stopped_at += 1
                     if stopped_at > 1:
                         return Violation("cycle-after-stop", kind, "", info)
@@ -188,8 +264,9 @@ class Lifecycle(Scenario):
 def factory(key):
     source, kind, calls, n, horizon = key[:5]
     auto = len(key) > 5 and key[5] == "autostart"
+    opts = tuple(key[5].split("+")) if (len(key) > 5 and not auto) else ()
     marks = tuple(0.5 * i for i in range(1, int(horizon * 2) + 1))
-    return lambda: Lifecycle(source=source, kind=kind, calls=calls, n=n, horizon=horizon, marks=marks, autostart=auto)
+    return lambda: Lifecycle(source=source, kind=kind, calls=calls, n=n, horizon=horizon, marks=marks, autostart=auto, opts=opts)
 
 
 def plan(ctx):
@@ -212,6 +289,18 @@ def plan(ctx):
             jobs.append(((src, "sync", 4, n, h), 1))
         jobs.append((("from_periodic", "future", 3, 0, 1.5, "autostart"), 1))
         jobs.append((("from_iterable", "future", 3, 3, 0.5, "autostart"), 1))
+    T = ctx.thorough
+    # start() / stop() called on a node downstream of two sources; two consumers; a polled callable that fails once;
+    # lifecycle calls made from another thread
+    jobs.append((("from_iterable", "future", 2, 2, 0.5, "two"), 1 if T else 0))
+    jobs.append((("from_iterable", "sync", 4 if T else 3, 2, 0.5, "two"), 1))
+    jobs.append((("from_iterable", "future", 2, 2, 0.5, "fan"), 1))
+    jobs.append((("from_periodic", "future", 2, 0, 1.5, "fan"), 1 if T else 0))
+    jobs.append((("from_periodic", "sync", 4, 0, 2.5, "pollfail"), 1))
+    jobs.append((("from_periodic", "future", 3, 0, 2.5, "pollfail"), 1 if T else 0))
+    for src, n, h in (("from_periodic", 0, 1.5), ("from_iterable", 3, 0.5), ("from_textfile", 2, 1.0)):
+        jobs.append(((src, "sync", 3, n, h, "thread"), 1))
+        jobs.append(((src, "future", 2, n, h, "thread"), 1))
     return jobs
 
 
